@@ -188,6 +188,7 @@ package stakepool
 //@   ensures[one-transfer-of-exactly-the-value] result1 == nil ==> $ntr == old($ntr) + 1 && $out[txn.ClientID] == old($out[txn.ClientID]) + txn.Value && $in[txn.ToClientID] == old($in[txn.ToClientID]) + txn.Value
 //@   ensures[into-the-stakers-own-pool] result1 == nil ==> (txn.ClientID in sp.Pools) && sp.Pools[txn.ClientID].DelegateID == txn.ClientID
 //@   ensures[pool-grows-by-exactly-the-value] result1 == nil ==> sp.Pools[txn.ClientID].Balance == (old(txn.ClientID in sp.Pools) ? old(sp.Pools[txn.ClientID].Balance) : 0) + txn.Value
+//@   ensures[accrued-reward-kept] result1 == nil ==> sp.Pools[txn.ClientID].Reward == (old(txn.ClientID in sp.Pools) ? old(sp.Pools[txn.ClientID].Reward) : 0)
 //@   ensures[no-other-pool-entry-touched] forall k string :: k != txn.ClientID ==> ((k in sp.Pools) == old(k in sp.Pools)) && (old(k in sp.Pools) ==> sp.Pools[k] == old(sp.Pools[k]))
 //@   ensures[no-other-pool-object-changed] forall k string :: old(k in sp.Pools) && old(sp.Pools[k]) != old(sp.Pools[txn.ClientID]) ==> old(sp.Pools[k]).Balance == old(sp.Pools[k].Balance) && old(sp.Pools[k]).Reward == old(sp.Pools[k].Reward)
 //@   ensures[failure-queues-nothing] result1 != nil ==> $ntr == old($ntr)
@@ -276,10 +277,19 @@ package stakepool
 
 // StakePoolUnlock collects, empties and deletes the SENDER's pool only: the pool id and the owner passed
 // to Empty are both the transaction's sender, the payer is the contract the transaction addresses.
+// The three steps happen in this order, each exactly once before the next: the pool is emptied only
+// after its rewards were collected, deleted only after it was emptied, saved only after it was deleted.
+//   $unlockSteps   specification-only counter: +1 at UnlockPool, +10 at Empty, +100 at DeletePool
+//@ ghost $unlockSteps Int accumulator
 //@ func StakePoolUnlock
 //@   prop C11
 //@   requires t != nil && balances != nil
+//@   at-call UnlockPool ghost $unlockSteps += 1
+//@   at-call Empty ghost $unlockSteps += 10
+//@   at-call DeletePool ghost $unlockSteps += 100
 //@   at-call UnlockPool assert[collects-the-senders-rewards] $arg1 == t.ClientID
 //@   at-call Empty assert[pays-the-sender-from-the-contract-wallet] $arg1 == t.ToClientID && $arg2 == t.ClientID && $arg3 == t.ClientID
+//@   at-call Empty assert[emptied-only-after-collecting] $unlockSteps == old($unlockSteps) + 1
 //@   at-call DeletePool assert[deletes-the-senders-pool] $arg1 == t.ClientID
-//@   at-call Save assert[saved-only-after-empty-and-delete] err == nil
+//@   at-call DeletePool assert[deleted-only-after-emptying] $unlockSteps == old($unlockSteps) + 11
+//@   at-call Save assert[saved-only-after-empty-and-delete] err == nil && $unlockSteps == old($unlockSteps) + 111
